@@ -7,20 +7,27 @@ digit ranges so that the caller can enumerate ALL input vectors.
 """
 
 # atoms -------------------------------------------------------------------------------------------
-#  A  x = V(k, 1)               assignment (logged)
+#  A  x = 1; V(k)               assignment of a literal (lets type inference pick a C type when it dares), logged
+#  AV x = V(k, 1)               assignment of a call result (always an object)
+#  X  x; V(k)                   bare expression statement reading x
 #  D  del x; V(k)               deletion (logged after success)
 #  R  V(k, x)                   read
 #  Y  y = V(k, x)               read of x feeding an assignment of y (y is probed in the epilogue)
-#  C  RZ(k, d[i])               conditional raise of ValueError
+#  C  RZ(k, d[i])               conditional raise of ValueError (explicit atom; besides, the body of every try
+#                               statement and of the suppressing `with` is interleaved with such conditional raises
+#                               at EVERY position for free, so every exception edge out of a try body is exercised)
 #  B  if d[i]: break            (loop bodies only)
 #  K  if d[i]: continue         (loop bodies only)
 #  T  if d[i]: return V(k)      conditional return (through finally blocks)
 #  F  def g(): return x / V(k, g())   closure read
+# compounds: if, if/else, while[/else] (0..2 iterations), for x in range / sequence [/else], try/except [as x],
+#  try/finally, try/except/else/finally, with (plain, suppressing, as x), match: mt (literal / wildcard), mtx (literal /
+#  capture x), ms (sequence pattern / wildcard), mc (literal / class pattern)
 #  M  V(k, (lambda: x)())       lambda read
 #  Q  V(k, [x for _ in (0,)])   comprehension read
-ATOMS_CORE = ('A', 'D', 'R', 'Y', 'C')
+ATOMS_CORE = ('A', 'D', 'R', 'Y')
 ATOMS_LOOP = ('B', 'K')
-ATOMS_EXTRA = ('T', 'F', 'M', 'Q')
+ATOMS_EXTRA = ('AV', 'X', 'C', 'T', 'F', 'M', 'Q')
 
 # compound forms: name -> (number of body slots, loop slots (indices whose body is a loop body))
 FORMS = {
@@ -29,9 +36,9 @@ FORMS = {
     'forx': (1, (0,)), 'forxe': (2, (0,)), 'forl': (1, (0,)),
     'te': (2, ()), 'tf': (2, ()), 'tex': (2, ()), 'teef': (4, ()),
     'wn': (1, ()), 'ws': (1, ()), 'wx': (1, ()),
-    'mt': (2, ()), 'mtx': (2, ()),
+    'mt': (2, ()), 'mtx': (2, ()), 'ms': (2, ()), 'mc': (2, ()),
 }
-FORM_ORDER = ('if', 'ife', 'wh', 'whe', 'forx', 'forxe', 'forl', 'te', 'tf', 'tex', 'teef', 'wn', 'ws', 'wx', 'mt', 'mtx')
+FORM_ORDER = ('if', 'ife', 'wh', 'whe', 'forx', 'forxe', 'forl', 'te', 'tf', 'tex', 'teef', 'wn', 'ws', 'wx', 'mt', 'mtx', 'ms', 'mc')
 
 
 def _stmts(depth, budget, in_loop, atoms, forms, inner_len):
@@ -82,7 +89,7 @@ def _walk(prog):
             yield from _walk(b)
 
 
-BINDERS = {'A', 'forx', 'forxe', 'forl', 'tex', 'wx', 'mtx'}
+BINDERS = {'A', 'AV', 'forx', 'forxe', 'forl', 'tex', 'wx', 'mtx'}
 DIGIT_USERS = {'C': 2, 'B': 2, 'K': 2, 'T': 2, 'if': 2, 'ife': 2, 'wh': 3, 'whe': 3, 'forx': 3, 'forxe': 3, 'forl': 3,
                'mt': 2, 'mtx': 2}
 
@@ -92,14 +99,16 @@ def admissible(prog, init, max_digits):
     ks = set(kinds)
     if not init and not (ks & BINDERS):
         return False                      # x would be a global name: nothing about locals is exercised
-    if ('F' in ks or 'M' in ks) and 'D' in ks:
-        return False                      # Cython rejects `del` of a variable referenced in a nested scope (by design)
-    if sum(1 for k in kinds if k in DIGIT_USERS) > max_digits:
+    if ('F' in ks or 'M' in ks) and ('D' in ks or 'tex' in ks):
+        return False    # Cython rejects `del` (also the implicit one of `except .. as x`) of a variable referenced in a nested scope (by design)
+    r = _R()
+    r.body(1, prog, 'top')
+    if len(r.radix) > max_digits:
         return False
     return True
 
 
-def programs(size, top_len=3, inner_len=2, depth=2, atoms=ATOMS_CORE + ATOMS_EXTRA, forms=FORM_ORDER, max_digits=5):
+def programs(size, top_len=3, inner_len=2, depth=2, atoms=ATOMS_CORE + ATOMS_EXTRA, forms=FORM_ORDER, max_digits=6):
     """All admissible (init, program) pairs: init in (False, True) = `x = 1` prologue present."""
     out = []
     for prog, used in _seqs(depth, size, top_len, False, atoms, forms, inner_len):
@@ -116,9 +125,12 @@ class _R:
         self.site = 0
         self.radix = []
         self.sites = {}     # line number (1-based within function) -> site id
+        self.paths = {}     # site id -> 'form.slot/form.slot/kind'
+        self.path = []
 
-    def k(self):
+    def k(self, kind):
         self.site += 1
+        self.paths[self.site] = '/'.join(self.path + [kind])
         return self.site
 
     def digit(self, r):
@@ -130,97 +142,128 @@ class _R:
         if site is not None:
             self.sites[len(self.lines)] = site
 
-    def body(self, ind, stmts):
+    def body(self, ind, stmts, slot):
+        self.path.append(slot)
         if not stmts:
             self.emit(ind, 'pass')
         for s in stmts:
             self.stmt(ind, s)
+        self.path.pop()
+
+    def trybody(self, ind, stmts, slot):
+        """Body of a try / suppressing with: a conditional raise before every statement and at the end."""
+        self.path.append(slot)
+        for s in stmts:
+            k = self.k('raise'); self.emit(ind, 'RZ(%d, %s)' % (k, self.digit(2)), k)
+            self.stmt(ind, s)
+        k = self.k('raise'); self.emit(ind, 'RZ(%d, %s)' % (k, self.digit(2)), k)
+        self.path.pop()
 
     def stmt(self, ind, s):
         f = s[0]
         e = self.emit
         if f == 'A':
-            k = self.k(); e(ind, 'x = V(%d, 1)' % k, k)
+            k = self.k(f); e(ind, 'x = 1; V(%d)' % k, k)
+        elif f == 'AV':
+            k = self.k(f); e(ind, 'x = V(%d, 1)' % k, k)
+        elif f == 'X':
+            k = self.k(f); e(ind, 'x; V(%d)' % k, k)
         elif f == 'D':
-            k = self.k(); e(ind, 'del x; V(%d)' % k, k)
+            k = self.k(f); e(ind, 'del x; V(%d)' % k, k)
         elif f == 'R':
-            k = self.k(); e(ind, 'V(%d, x)' % k, k)
+            k = self.k(f); e(ind, 'V(%d, x)' % k, k)
         elif f == 'Y':
-            k = self.k(); e(ind, 'y = V(%d, x)' % k, k)
+            k = self.k(f); e(ind, 'y = V(%d, x)' % k, k)
         elif f == 'C':
-            k = self.k(); e(ind, 'RZ(%d, %s)' % (k, self.digit(2)), k)
+            k = self.k(f); e(ind, 'RZ(%d, %s)' % (k, self.digit(2)), k)
         elif f == 'B':
             e(ind, 'if %s: break' % self.digit(2))
         elif f == 'K':
             e(ind, 'if %s: continue' % self.digit(2))
         elif f == 'T':
-            k = self.k(); e(ind, 'if %s: return V(%d)' % (self.digit(2), k), k)
+            k = self.k(f); e(ind, 'if %s: return V(%d)' % (self.digit(2), k), k)
         elif f == 'F':
-            k = self.k()
+            k = self.k(f)
             e(ind, 'def g%d(): return x' % k)
             e(ind, 'V(%d, g%d())' % (k, k), k)
         elif f == 'M':
-            k = self.k(); e(ind, 'V(%d, (lambda: x)())' % k, k)
+            k = self.k(f); e(ind, 'V(%d, (lambda: x)())' % k, k)
         elif f == 'Q':
-            k = self.k(); e(ind, 'V(%d, [x for _ in (0,)])' % k, k)
+            k = self.k(f); e(ind, 'V(%d, [x for _ in (0,)])' % k, k)
         elif f in ('if', 'ife'):
-            e(ind, 'if %s:' % self.digit(2)); self.body(ind + 1, s[1])
+            e(ind, 'if %s:' % self.digit(2)); self.body(ind + 1, s[1], f + '.0')
             if f == 'ife':
-                e(ind, 'else:'); self.body(ind + 1, s[2])
+                e(ind, 'else:'); self.body(ind + 1, s[2], f + '.1')
         elif f in ('wh', 'whe'):
-            k = self.k()
+            k = self.k(f)
             e(ind, 'n%d = %s' % (k, self.digit(3)))
             e(ind, 'while n%d:' % k)
             e(ind + 1, 'n%d -= 1' % k)
-            self.body(ind + 1, s[1])
+            self.body(ind + 1, s[1], f + '.0')
             if f == 'whe':
-                e(ind, 'else:'); self.body(ind + 1, s[2])
+                e(ind, 'else:'); self.body(ind + 1, s[2], f + '.1')
         elif f in ('forx', 'forxe'):
-            k = self.k()
-            e(ind, 'for x in range(%s):' % self.digit(3), k); self.body(ind + 1, s[1])
+            k = self.k(f)
+            e(ind, 'for x in range(%s):' % self.digit(3), k); self.body(ind + 1, s[1], f + '.0')
             if f == 'forxe':
-                e(ind, 'else:'); self.body(ind + 1, s[2])
+                e(ind, 'else:'); self.body(ind + 1, s[2], f + '.1')
         elif f == 'forl':
-            k = self.k()
-            e(ind, 'for x in (1, 1)[:%s]:' % self.digit(3), k); self.body(ind + 1, s[1])
+            k = self.k(f)
+            e(ind, 'for x in (1, 1)[:%s]:' % self.digit(3), k); self.body(ind + 1, s[1], f + '.0')
         elif f in ('te', 'tex'):
-            e(ind, 'try:'); self.body(ind + 1, s[1])
-            e(ind, 'except Exception as x:' if f == 'tex' else 'except Exception:'); self.body(ind + 1, s[2])
+            e(ind, 'try:'); self.trybody(ind + 1, s[1], f + '.0')
+            e(ind, 'except Exception as x:' if f == 'tex' else 'except Exception:'); self.body(ind + 1, s[2], f + '.1')
         elif f == 'tf':
-            e(ind, 'try:'); self.body(ind + 1, s[1])
-            e(ind, 'finally:'); self.body(ind + 1, s[2])
+            e(ind, 'try:'); self.trybody(ind + 1, s[1], f + '.0')
+            e(ind, 'finally:'); self.body(ind + 1, s[2], f + '.1')
         elif f == 'teef':
-            e(ind, 'try:'); self.body(ind + 1, s[1])
-            e(ind, 'except Exception:'); self.body(ind + 1, s[2])
-            e(ind, 'else:'); self.body(ind + 1, s[3])
-            e(ind, 'finally:'); self.body(ind + 1, s[4])
+            e(ind, 'try:'); self.trybody(ind + 1, s[1], f + '.0')
+            e(ind, 'except Exception:'); self.body(ind + 1, s[2], f + '.1')
+            e(ind, 'else:'); self.body(ind + 1, s[3], f + '.2')
+            e(ind, 'finally:'); self.body(ind + 1, s[4], f + '.3')
         elif f in ('wn', 'ws', 'wx'):
-            k = self.k()
+            k = self.k(f)
             cm = {'wn': 'NS(%d)', 'ws': 'SUP(%d)', 'wx': 'NS(%d) as x'}[f] % k
-            e(ind, 'with %s:' % cm); self.body(ind + 1, s[1])
+            e(ind, 'with %s:' % cm)
+            if f == 'ws':
+                self.trybody(ind + 1, s[1], f + '.0')
+            else:
+                self.body(ind + 1, s[1], f + '.0')
         elif f in ('mt', 'mtx'):
             e(ind, 'match %s:' % self.digit(2))
-            e(ind + 1, 'case 0:'); self.body(ind + 2, s[1])
-            e(ind + 1, 'case x:' if f == 'mtx' else 'case _:'); self.body(ind + 2, s[2])
+            e(ind + 1, 'case 0:'); self.body(ind + 2, s[1], f + '.0')
+            e(ind + 1, 'case x:' if f == 'mtx' else 'case _:'); self.body(ind + 2, s[2], f + '.1')
+        elif f == 'ms':     # structural pattern first, then a case the compiler rewrites into a plain `if`
+            e(ind, 'match (%s,):' % self.digit(2))
+            e(ind + 1, 'case (0,):'); self.body(ind + 2, s[1], f + '.0')
+            e(ind + 1, 'case _:'); self.body(ind + 2, s[2], f + '.1')
+        elif f == 'mc':     # rewritten literal case first, then a structural (class) pattern
+            e(ind, 'match %s:' % self.digit(2))
+            e(ind + 1, 'case 0:'); self.body(ind + 2, s[1], f + '.0')
+            e(ind + 1, 'case int():'); self.body(ind + 2, s[2], f + '.1')
         else:
             raise ValueError(f)
 
 
 def render(name, init, prog):
-    """Returns (source text, radix tuple, {relative line -> site}, has_y)."""
+    """Returns (source text, radix tuple, {relative line -> site}, {site -> path})."""
     r = _R()
     r.emit(0, 'def %s(d):' % name)
     if init:
         r.emit(1, 'x = 1')
-    r.body(1, prog)
+    r.body(1, prog, 'top')
+    r.path = []
     # epilogue: probe the final state of x (and y) without ending the function
+    r.emit(1, 'try: x; V("bx")', 'bx')
+    r.emit(1, 'except NameError: V("nx")')
     r.emit(1, 'try: V("fx", x)', 'fx')
     r.emit(1, 'except NameError: V("ux")')
     has_y = any(s[0] == 'Y' for s in _walk(prog))
     if has_y:
         r.emit(1, 'try: V("fy", y)', 'fy')
         r.emit(1, 'except NameError: V("uy")')
-    return '\n'.join(r.lines) + '\n', tuple(r.radix), r.sites, has_y
+    r.paths.update({'bx': 'epilogue-bare-x', 'nx': 'epilogue-bare-x', 'fx': 'epilogue-x', 'ux': 'epilogue-x', 'fy': 'epilogue-y', 'uy': 'epilogue-y'})
+    return '\n'.join(r.lines) + '\n', tuple(r.radix), r.sites, r.paths
 
 
 def tag(init, prog):
